@@ -110,7 +110,10 @@ fn front_end(text: &str) -> Result<Outcome, String> {
     }
 }
 
-const INSERT_CHARS: [char; 18] = ['"', '\'', '/', '*', '-', '{', '}', '(', ')', '.', ',', ';', ':', '=', ' ', '\n', 'x', '0'];
+/// ... and characters of two, three and four UTF-8 octets, a tab and a NUL (byte offsets and character offsets differ)
+const INSERT_CHARS: [char; 24] = [
+    '"', '\'', '/', '*', '-', '{', '}', '(', ')', '.', ',', ';', ':', '=', ' ', '\n', 'x', '0', '\u{e9}', '\u{20ac}', '\u{1f600}', '\t', '\0', 'H',
+];
 
 fn apply(items0: &[String], text0: &str, faults: &[Value], vocab: &[String]) -> Option<String> {
     let mut its: Vec<String> = items0.to_vec();
@@ -214,6 +217,7 @@ pub fn replay(input: &str, out: &mut Out, kv: &Kv) {
                     *cnt += 1;
                     if *cnt <= 3 {
                         out.line(&json!({"case": c, "module": if mi == usize::MAX { -1 } else { mi as i64 }, "why": why, "text": text}));
+                        out.flush();
                     }
                 }
             }
